@@ -235,4 +235,92 @@ theorem go_error_congr (c : Cfg) (A : List Piece) (h : ∀ rs st, ∃ e, go c rs
         · exact ⟨.badChar, by simp [hw]⟩
       | some ind => simp only [List.cons_append, go]; exact ih _ _
 
+/-! ### the erased stream (what the LALR parser can see) -/
+
+/-- what the parser can see of a stream -/
+def goE (c : Cfg) (rs : Option (List Ws)) (st : St) (ps : List Piece) : Except Err (List ETok) :=
+  (go c rs st ps).map (List.map erase)
+
+theorem map_bind {ε α β γ : Type} (x : Except ε α) (f : α → Except ε β) (g : β → γ) :
+    (x.bind f).map g = x.bind (fun a => (f a).map g) := by
+  cases x <;> rfl
+
+theorem goE_congr (c : Cfg) (A B : List Piece) (h : ∀ rs st, goE c rs st A = goE c rs st B) :
+    ∀ pre rs st, goE c rs st (pre ++ A) = goE c rs st (pre ++ B) := by
+  intro pre
+  induction pre with
+  | nil => intro rs st; simpa using h rs st
+  | cons p pre ih =>
+    intro rs st
+    cases p with
+    | tok ty v =>
+      have key : ∀ st2, (go c none st2 (pre ++ A)).map (List.map erase) = (go c none st2 (pre ++ B)).map (List.map erase) :=
+        fun st2 => ih none st2
+      simp only [goE, List.cons_append, go]
+      cases flush c rs st with
+      | error e => rfl
+      | ok p =>
+        simp only [Except.bind]
+        cases bump c p.2 ty with
+        | error e => rfl
+        | ok st2 =>
+          simp only []
+          have := key st2
+          cases hA : go c none st2 (pre ++ A) <;> cases hB : go c none st2 (pre ++ B) <;> simp_all [Except.map]
+    | comment s =>
+      have key : ∀ st2, (go c none st2 (pre ++ A)).map (List.map erase) = (go c none st2 (pre ++ B)).map (List.map erase) :=
+        fun st2 => ih none st2
+      simp only [goE, List.cons_append, go]
+      cases flush c rs st with
+      | error e => rfl
+      | ok p =>
+        simp only [Except.bind]
+        have := key p.2
+        cases hA : go c none p.2 (pre ++ A) <;> cases hB : go c none p.2 (pre ++ B) <;> simp_all [Except.map]
+    | nl cr => simpa only [goE, List.cons_append, go] using ih (some []) st
+    | ws w =>
+      cases rs with
+      | none =>
+        simp only [goE, List.cons_append, go]
+        split
+        · exact ih none st
+        · rfl
+      | some ind => simpa only [goE, List.cons_append, go] using ih (some (ind ++ [w])) st
+
+/-- the text of a `_`-terminal is invisible -/
+theorem goE_tok_text (c : Cfg) (ty v v' : String) (h : ty.startsWith "_" = true) (post : List Piece) (rs : Option (List Ws)) (st : St) :
+    goE c rs st (.tok ty v :: post) = goE c rs st (.tok ty v' :: post) := by
+  simp only [goE, go]
+  cases flush c rs st with
+  | error e => rfl
+  | ok p =>
+    simp only [Except.bind]
+    cases bump c p.2 ty with
+    | error e => rfl
+    | ok st2 =>
+      simp only []
+      cases go c none st2 post with
+      | error e => rfl
+      | ok rest => simp [Except.map, erase, h]
+
+theorem layoutE_eq_goE (c : Cfg) (ps : List Piece) : layoutE c ps = goE c none St.init ps := by
+  unfold layoutE goE layout
+  cases go c none St.init ps <;> rfl
+
+theorem go_setCR (c : Cfg) (f : Bool → Bool) : ∀ (ps : List Piece) (rs : Option (List Ws)) (st : St),
+    go c rs st (ps.map (setCR f)) = go c rs st ps := by
+  intro ps
+  induction ps with
+  | nil => intro rs st; rfl
+  | cons p ps ih =>
+    intro rs st
+    cases p with
+    | tok ty v => simp only [List.map_cons, setCR, go, ih]
+    | comment s => simp only [List.map_cons, setCR, go, ih]
+    | nl cr => simp only [List.map_cons, setCR, go, ih]
+    | ws w =>
+      cases rs with
+      | none => simp only [List.map_cons, setCR, go, ih]
+      | some ind => simp only [List.map_cons, setCR, go, ih]
+
 end NemoVerif.Layout
